@@ -15,6 +15,7 @@
 (*   [k |-> "gopt", o |-> "depth"] | [k |-> "gopt", o |-> "maxdepth" |     *)
 (*    "mindepth", n]: global options - true where they stand, in force for *)
 (*    the whole run wherever they stand (the last -maxdepth/-mindepth wins)*)
+(*   [k |-> "exec", c |-> "true" | "false" | "exists"]   [k |-> "fls"]      *)
 (* print / printf words with file |-> 1 | 2 write to that file instead.    *)
 (* Result: the bytes on standard output and in the files, and the number   *)
 (* of diagnosed failures (exit status).                                    *)
@@ -27,7 +28,9 @@ TokOf(words, i) == IF words[i].k = "op" THEN words[i].t ELSE "L" \o ToString(i)
 Toks(words) == [i \in DOMAIN words |-> TokOf(words, i)]
 WordOf(words, tok) == words[CHOOSE i \in DOMAIN words : words[i].k # "op" /\ TokOf(words, i) = tok]
 
-IsAction(w) == w.k \in {"print", "printf"}
+\* actions (they suppress the default -print wherever they stand); the output actions among them write to a channel
+IsOutput(w) == w.k \in {"print", "printf"}
+IsAction(w) == IsOutput(w) \/ w.k \in {"exec", "fls"}
 SemHasAction(words) == \E i \in DOMAIN words : IsAction(words[i])
 SemParse(words) == RefParse(Toks(words))
 
@@ -42,7 +45,7 @@ NoOut == [c \in Chans |-> <<>>]
 OnChan(c, b) == [x \in Chans |-> IF x = c THEN b ELSE <<>>]
 OutCat(a, b) == [c \in Chans |-> a[c] \o b[c]]
 ChanOf(w) == IF "file" \in DOMAIN w THEN w.file ELSE 0
-FilesNamed(words) == {ChanOf(words[i]) : i \in {j \in DOMAIN words : IsAction(words[j])}} \ {0}
+FilesNamed(words) == {ChanOf(words[i]) : i \in {j \in DOMAIN words : IsOutput(words[j])}} \ {0}
 
 (***************************************************************************)
 (* Tests beyond Stat.TestHolds: -size in units (Numeric), the time tests   *)
@@ -68,6 +71,12 @@ WordEval(tree, cfg, start, e, w) ==
   ELSE IF w.k = "regex" THEN SRes(RX!InLang(w.ast, Utf8Decode(e.path), w.fold), NoOut, FALSE, FALSE)
   ELSE IF w.k = "const" THEN SRes(w.v, NoOut, FALSE, FALSE)
   ELSE IF w.k = "gopt" THEN SRes(TRUE, NoOut, FALSE, FALSE)
+  \* -exec true ; / -exec false ; / -exec test -e {} ; - true iff the command exits 0 (test -e: the entry, through
+  \* links, exists); -fls FILE lists into a file that is not judged here
+  ELSE IF w.k = "exec" THEN
+       SRes(IF w.c = "true" THEN TRUE ELSE IF w.c = "false" THEN FALSE ELSE ~(tree[e.node].kind = "l" /\ tree[e.node].target = 0),
+            NoOut, FALSE, FALSE)
+  ELSE IF w.k = "fls" THEN SRes(TRUE, NoOut, FALSE, FALSE)
   ELSE IF w.k = "prune" THEN SRes(TRUE, NoOut, FALSE, tree[e.eff].kind = "d")
   ELSE IF w.k = "quit" THEN SRes(TRUE, NoOut, TRUE, FALSE)
   ELSE IF w.k = "print" THEN SRes(TRUE, OnChan(ChanOf(w), e.path \o <<w.delim>>), FALSE, FALSE)
@@ -147,7 +156,7 @@ AllEntries(tree, cfg, roots) ==
 SemDom(words, tree, cfg0, roots) ==
   LET cfg == EffCfg(words, cfg0) IN
   /\ SemParse(words).ok
-  /\ \A i, j \in DOMAIN words : (i # j /\ IsAction(words[i]) /\ IsAction(words[j]) /\ ChanOf(words[i]) # 0) => ChanOf(words[i]) # ChanOf(words[j])
+  /\ \A i, j \in DOMAIN words : (i # j /\ IsOutput(words[i]) /\ IsOutput(words[j]) /\ ChanOf(words[i]) # 0) => ChanOf(words[i]) # ChanOf(words[j])
   /\ \A i \in DOMAIN words :
         /\ (words[i].k = "printf" =>
               /\ ParseFmt(Utf8(words[i].fmt)).ok
